@@ -1,0 +1,16 @@
+//go:build verif
+
+package oauth2
+
+import (
+	"context"
+
+	"golang.org/x/oauth2"
+)
+
+// SetExchangerForVerif replaces the token exchange function (the same package
+// variable the package's own tests replace) so that verification harnesses can
+// drive End past the exchange without a network. Only built with -tags verif.
+func SetExchangerForVerif(f func(*oauth2.Config, context.Context, string, ...oauth2.AuthCodeOption) (*oauth2.Token, error)) {
+	exchanger = f
+}
